@@ -9,7 +9,8 @@ Real code driven (in-process, nothing of it is re-implemented):
 Collaborators are replaced by ledger-recording fakes: the per-protocol
 SetupData.connect/close/device_info/interfaces/features (fake ProtocolMethods in
 pyatv.PROTOCOLS; connect() takes scripted virtual time), http.create_session
-(ClientSessionManager), raop.http_connect / airplay.http_connect, the I/O of StreamClient (its initialize/close are real),
+(ClientSessionManager), raop.http_connect / airplay.http_connect, the I/O below StreamClient and the AirPlayV1/V2
+protocol objects (UDP endpoints, RTSP requests, pair-verify, event channel, packet pump; the objects themselves are real),
 open_source, StaticFileWebServer, AirPlayPlayer.  Every fake call is a numbered *point*;
 a plan makes point k fail (an Exception), be cancelled (real task.cancel(), delivered
 as CancelledError at the fake's await) or park (overlap scenarios).  Release calls that
@@ -25,8 +26,10 @@ import os
 
 RULE = ("connect: every subset of the five protocols x every failing position x each of the four per-protocol "
         "collaborator calls (connect, interfaces.items(), features iteration, device_info()) x scripted virtual-time "
-        "connect durations (none / failing one fastest / slowest / PRNG), loop drained before observing, + success runs; "
-        "stream_file (4 variants: metadata given/not x initial volume known/not) and play_url (local file / URL): "
+        "connect durations (none / failing one fastest / slowest / PRNG), close() tasks that raise / finish late, observed when "
+        "connect() raises and after the loop is drained, + success runs; "
+        "stream_file (8 variants: metadata given/not x initial volume known/not x AirPlay 1/2 receiver, real StreamClient and "
+        "AirPlayV1/V2 protocol objects over fakes of what they acquire; + TXT records whose parsing raises) and play_url (local file / URL): "
         "a failure and a real cancellation at every collaborator call (points enumerated by a dry run), "
         "every overlap (second call of either kind while the first is parked at every point; refused takeover "
         "by a foreign protocol; second call after the first failed); thorough adds fault x overlap products and "
@@ -113,7 +116,19 @@ class World:
                     out.append(f"takeover{i}")
         if self.airplay_stream is not None and self.airplay_stream._play_task is not None:
             out.append("playTask")
+        for t in self.fb_tasks():
+            out.append("fbtask")
         return sorted(out)
+
+    @staticmethod
+    def fb_tasks():
+        """Pending feedback / keep-alive tasks started by the (real) stream protocol objects."""
+        out = []
+        for t in asyncio.all_tasks():
+            co = getattr(t.get_coro(), "__qualname__", "")
+            if not t.done() and ("_feedback_task_loop" in co or "_send_keep_alive" in co):
+                out.append(t)
+        return out
 
     def open_ids(self):
         return sorted((kind, id(o)) for kind, o in self.objs if o.open)
@@ -146,13 +161,30 @@ def make_http_connect(world, kind):
     return http_connect
 
 
+def injected_in(ex):
+    """Is the injected failure the (possibly wrapped) cause of this exception?"""
+    seen = 0
+    while ex is not None and seen < 10:
+        if isinstance(ex, Injected):
+            return True
+        ex = ex.__cause__ or ex.__context__
+        seen += 1
+    return False
+
+
 def make_stream_client(world, info):
-    """The REAL StreamClient (initialize / close / listener / info are the code under
-    test); only its I/O is faked: the loop's create_datagram_endpoint (control + timing
-    sockets), the RTSP session, the AirPlay v1/v2 protocol object, and the two long
-    running calls set_volume / send_audio (C16 covers streaming itself)."""
+    """The REAL StreamClient: initialize / close / send_audio (set-up, start_feedback,
+    RECORD/FLUSH, its finally) / set_volume are the code under test, together with the
+    REAL AirPlayV1 / AirPlayV2 protocol object that RaopPlaybackManager.setup chose
+    (setup, setup_audio_stream, start_feedback, teardown).  Faked is what THEY acquire or
+    talk to: the loop's create_datagram_endpoint (control, timing, audio sockets), the
+    RTSP requests, pair-verify, the AirPlay 2 event channel (setup_channel), and the
+    packet pump `_stream_data` (C16 covers streaming itself)."""
+    import plistlib
+
     from pyatv.protocols.raop.protocols import TimingServer
-    from pyatv.protocols.raop.stream_client import StreamClient
+    from pyatv.protocols.raop.stream_client import ControlClient, StreamClient
+    from pyatv.support.http import HttpResponse
 
     class FakeSocket:
         @staticmethod
@@ -172,7 +204,7 @@ def make_stream_client(world, info):
     class FakeLoop:
         async def create_datagram_endpoint(self, factory, **kwargs):
             proto = factory()
-            kind = "timing" if isinstance(proto, TimingServer) else "ctrl"
+            kind = "timing" if isinstance(proto, TimingServer) else "ctrl" if isinstance(proto, ControlClient) else "audiosock"
             await world.plan.point("udp_endpoint:" + kind)
             transport = world.add(kind, FakeTransport())
             if hasattr(proto, "connection_made"):
@@ -181,36 +213,114 @@ def make_stream_client(world, info):
                 proto.transport = transport
             return transport, proto
 
+    def response(headers=None, body=b""):
+        return HttpResponse("RTSP", "1.0", 200, "OK", headers or {}, body)
+
     class FakeRtsp:
+        """The RTSP requests of pyatv.support.rtsp.RtspSession; every request of the
+        operation is a point (requests of background tasks are answered, not numbered)."""
+
+        session_id = 1234
+
         def __init__(self, connection):
             self.connection = connection
 
+        async def _req(self, name):
+            plan = world.plan
+            if plan.op_task is not None and asyncio.current_task() is not plan.op_task:
+                await asyncio.sleep(0)
+                return
+            await plan.point("rtsp." + name)
+
         async def info(self):
-            await world.plan.point("rtsp.info")
+            await self._req("info")
             return dict(info)
 
-    class FakeProtocol:
-        async def setup(self, timing_port, control_port):
-            await world.plan.point("protocol.setup")
+        async def auth_setup(self):
+            await self._req("auth_setup")
+            return response()
 
-        def teardown(self):
-            pass
+        async def announce(self, *args, **kwargs):
+            await self._req("announce")
+            return response()
+
+        async def setup(self, headers=None, body=None):
+            await self._req("setup")
+            if body is not None and "streams" in body:
+                return response(body=plistlib.dumps({"streams": [{"controlPort": 4001, "dataPort": 4002}]}, fmt=plistlib.FMT_BINARY))
+            if body is not None:
+                return response(body=plistlib.dumps({"eventPort": 4003}, fmt=plistlib.FMT_BINARY))
+            return response(headers={"Transport": "RTP/AVP/UDP;unicast;mode=record;server_port=4002;control_port=4001;timing_port=4004",
+                                     "Session": "1"})
+
+        async def record(self, *args, **kwargs):
+            await self._req("record")
+            return response()
+
+        async def flush(self, *args, **kwargs):
+            await self._req("flush")
+            return response()
+
+        async def set_parameter(self, parameter, value):
+            await self._req("set_parameter")
+            return response()
+
+        async def set_metadata(self, *args, **kwargs):
+            await self._req("set_metadata")
+            return response()
+
+        async def set_artwork(self, *args, **kwargs):
+            await self._req("set_artwork")
+            return response()
+
+        async def feedback(self, allow_error=False):
+            await self._req("feedback")
+            return response()
+
+        async def teardown(self, rtsp_session):
+            await self._req("teardown")
+            return response()
 
     class HalfRealStreamClient(StreamClient):
         def __init__(self, rtsp, context, protocol, settings):
             super().__init__(rtsp, context, protocol, settings)
             self.loop = FakeLoop()
             self.rtsp = FakeRtsp(rtsp.connection)
-            self._protocol = FakeProtocol()
+            protocol.rtsp = self.rtsp          # the real AirPlayV1/V2 object talks to the same fake
 
-        async def set_volume(self, volume):
-            await world.plan.point("client.set_volume")
-            self.context.volume = volume
-
-        async def send_audio(self, source, metadata=None, /, volume=None):
-            await world.plan.point("client.send_audio")
+        async def _stream_data(self, source, transport):
+            await world.plan.point("client.stream_data")
 
     return HalfRealStreamClient
+
+
+def make_protocol_patches(world, patches):
+    """What the real AirPlayV1 / AirPlayV2 stream protocols acquire below RTSP."""
+    from pyatv.protocols.raop.protocols import airplayv1, airplayv2
+
+    class Verifier:
+        async def verify_credentials(self):
+            await world.plan.point("pair_verify")
+
+        @staticmethod
+        def encryption_keys(salt, out_info, in_info):
+            return bytes(64), bytes(64)
+
+    async def verify_connection(credentials, connection):
+        await world.plan.point("verify_connection")
+        return Verifier()
+
+    class EventTransport(Obj):
+        def close(self):
+            self.open = False
+
+    async def setup_channel(factory, verifier, address, port, salt, out_info, in_info):
+        await world.plan.point("setup_channel")
+        return world.add("eventch", EventTransport()), None
+
+    patches.set(airplayv1, "pair_verify", lambda credentials, connection: Verifier())
+    patches.set(airplayv2, "verify_connection", verify_connection)
+    patches.set(airplayv2, "setup_channel", setup_channel)
 
 
 def make_open_source(world):
@@ -306,14 +416,17 @@ def protocol_order():
 CONNECT_STEPS = ["connect", "register", "features", "device_info"]
 
 
-async def run_connect(subset, fault=None, delays=None):
+async def run_connect(subset, fault=None, delays=None, closes=None):
     """pyatv.connect with the protocols in `subset` (indices into PROTOCOLS order).  Per
     protocol the facade calls four things the protocol supplies: `await connect()` (which
     takes `delays[pos]` seconds of virtual time and then establishes a connection plus a
     background task), `interfaces.items()` (registration), iteration of `features`
     (feature mapping) and `device_info()`.  `fault = (pos, step, kind)` makes that call of
     the pos-th protocol (set-up order) fail / be cancelled.  After connect() has returned
-    or raised, the loop is drained (virtual time past every delay) before observing."""
+    or raised, the ledger is observed at once (`ledger_at_return`) and again after the loop
+    has been drained (virtual time past every delay).  `closes[pos]` scripts the protocol's
+    close(): "sync" (closed inside close()), "late" (close() returns a task that needs virtual
+    time before the connection is closed), "raise" (the close task closes and then raises)."""
     import pyatv
     from pyatv import conf, interface
     from pyatv.const import FeatureName
@@ -323,6 +436,7 @@ async def run_connect(subset, fault=None, delays=None):
 
     world = World()
     delays = list(delays or [0] * len(subset))
+    closes = list(closes or ["sync"] * len(subset))
     if fault:
         world.plan = Plan(kind=fault[2], fault_name=f"{CONNECT_STEPS[fault[1]]}:{subset[fault[0]]}")
     order = protocol_order()
@@ -336,6 +450,7 @@ async def run_connect(subset, fault=None, delays=None):
 
     def methods_for(idx, proto):
         delay = delays[subset.index(idx)] if idx in subset else 0
+        close_mode = closes[subset.index(idx)] if idx in subset else "sync"
 
         class Interfaces(dict):
             def items(self):
@@ -371,11 +486,24 @@ async def run_connect(subset, fault=None, delays=None):
 
             def _close():
                 tasks = set()
-                if "c" in conn:
-                    conn["c"].open = False
                 if "t" in conn:
                     conn["t"].task.cancel()
                     tasks.add(conn["t"].task)
+                if "c" in conn and close_mode == "sync":
+                    conn["c"].open = False
+                elif "c" in conn:
+                    async def closer():
+                        if close_mode == "late":
+                            await asyncio.sleep(0.3)
+                        conn["c"].open = False
+                        if close_mode == "raise":
+                            raise ConnectionResetError("connection reset while closing")
+
+                    ct = Obj()
+                    ct.task = asyncio.ensure_future(closer())
+                    ct.task.add_done_callback(lambda _f: setattr(ct, "open", False))
+                    world.add(f"task{idx}", ct)
+                    tasks.add(ct.task)
                 return tasks
 
             yield SetupData(proto, _connect, _close, device_info,
@@ -408,6 +536,8 @@ async def run_connect(subset, fault=None, delays=None):
         except Exception as ex:  # an observation, never a crash
             outcome = "err:" + type(ex).__name__
         at_return = world.ledger()
+        pending_at_return = len([t for t in asyncio.all_tasks() - before
+                                 if not t.done() and t is not asyncio.current_task()])
         # drain: let everything that was started run to its end (virtual time)
         await asyncio.sleep(max(delays + [0]) + 1.0)
         for _ in range(3):
@@ -416,6 +546,7 @@ async def run_connect(subset, fault=None, delays=None):
             "outcome": outcome,
             "ledger": world.ledger(),
             "ledger_at_return": at_return,
+            "pending_at_return": pending_at_return,
             "points": plan.n,
             "names": list(plan.names),
             "stray_tasks": len([t for t in asyncio.all_tasks() - before
@@ -446,9 +577,12 @@ class Rig:
     """A real FacadeAppleTV with the real RAOP and AirPlay stream implementations, whose
     collaborators are the fakes above."""
 
-    def __init__(self, vol_known=True):
+    def __init__(self, vol_known=True, v2=False, raop_props=None):
+        vol_known, v2 = cfg(vol_known, v2)
         self.world = World()
         self.vol_known = vol_known
+        self.v2 = v2
+        self.raop_props = raop_props
         self.patches = Patches()
 
     async def setup(self):
@@ -467,13 +601,28 @@ class Rig:
         p.set(raop, "http_connect", make_http_connect(w, "rconn"))
         p.set(raop, "StreamClient", make_stream_client(w, info))
         p.set(raop, "open_source", make_open_source(w))
+        make_protocol_patches(w, p)
+        real_gpv = raop.get_protocol_version
+
+        def get_protocol_version(service, preferred):
+            # helper parsing between two collaborator calls: a (synchronous) point
+            w.plan.sync_point("sync:get_protocol_version")
+            return real_gpv(service, preferred)
+
+        p.set(raop, "get_protocol_version", get_protocol_version)
         p.set(airplay, "http_connect", make_http_connect(w, "playConn"))
         p.set(airplay, "StaticFileWebServer", make_web_server(w))
         p.set(airplay, "AirPlayPlayer", make_player(w))
         p.set(airplay.net, "get_local_address_reaching", lambda addr: "127.0.0.1")
 
         config = conf.AppleTV("127.0.0.1", "verif")
-        raop_service = conf.ManualService("raopid", Protocol.RAOP, 7000, {})
+        from pyatv.protocols.airplay.utils import AirPlayFlags
+
+        flag = int(AirPlayFlags.SupportsUnifiedMediaControl)
+        props = {"ft": "0x%08X,0x%X" % (flag & 0xFFFFFFFF, flag >> 32)} if self.v2 else {"ft": "0x00000000,0x0"}
+        if self.raop_props is not None:
+            props = dict(self.raop_props)
+        raop_service = conf.ManualService("raopid", Protocol.RAOP, 7000, props)
         airplay_service = conf.ManualService("airplayid", Protocol.AirPlay, 7000, {})
         config.add_service(raop_service)
         config.add_service(airplay_service)
@@ -526,35 +675,53 @@ class Rig:
         try:
             await task
             out = "ok"
-        except Injected:
-            out = "fail"
         except asyncio.CancelledError:
             out = "cancel"
         except exceptions.InvalidStateError:
             out = "refused"
         except Exception as ex:
-            out = "err:" + type(ex).__name__
-        await asyncio.sleep(0)
+            out = "fail" if injected_in(ex) else "err:" + type(ex).__name__
+        for _ in range(3):
+            await asyncio.sleep(0)
         return out
 
     def teardown(self):
         self.patches.undo()
 
 
+def cfg(vol, v2=False):
+    """A receiver configuration: (initial volume known, AirPlay 2); a bare bool = AirPlay 1."""
+    if isinstance(vol, (list, tuple)):
+        return bool(vol[0]), bool(vol[1])
+    return bool(vol), bool(v2)
+
+
 def op_name(op, vol_known=True):
+    vol_known, v2 = cfg(vol_known)
     if op[0] == "stream":
-        return "stream:%d%d" % (1 if vol_known else 0, 1 if op[1] else 0)
+        return "stream:%d%d%d" % (1 if vol_known else 0, 1 if op[1] else 0, 1 if v2 else 0)
     return "play:%d" % (1 if op[1] else 0)
 
 
 def stray(before):
-    return [t for t in asyncio.all_tasks() - before if not t.done() and t is not asyncio.current_task()]
+    """Tasks started since `before` that are still pending.  Not counted: the feedback tasks
+    (they are in the ledger as `fbtask`) and ControlClient's periodic sync task, which nobody
+    cancels but which ends by itself at its next tick once the control socket is closed."""
+    out = []
+    for t in asyncio.all_tasks() - before:
+        co = getattr(t.get_coro(), "__qualname__", "")
+        if t.done() or t is asyncio.current_task() or "_sync_handler" in co:
+            continue
+        if "_feedback_task_loop" in co or "_send_keep_alive" in co:
+            continue
+        out.append(t)
+    return out
 
 
-async def scenario_single(op, vol_known, fault_at, kind, foreign=()):
+async def scenario_single(op, vol_known, fault_at, kind, foreign=(), raop_props=None):
     """One call with one fault (or none), optionally while a foreign protocol holds a
     takeover; then a fresh stream_file must be accepted."""
-    rig = await Rig(vol_known).setup()
+    rig = await Rig(vol_known, raop_props=raop_props).setup()
     try:
         if foreign:
             rig.foreign_takeover(foreign)
@@ -647,12 +814,16 @@ def csv(xs):
     return ",".join(xs) if xs else "-"
 
 
-def variants():
-    """(op, vol_known): the six scripts (volume only matters for stream_file)."""
+STREAM_CFGS = [[True, False], [False, False], [True, True], [False, True]]
+PLAY_CFG = [True, False]
+
+
+def variants(cfgs=None):
+    """(op, cfg): the script variants (the receiver configuration only matters for stream_file)."""
     out = []
     for op in OPS:
-        for vol in ((True, False) if op[0] == "stream" else (True,)):
-            out.append((op, vol))
+        for c in ((cfgs or STREAM_CFGS) if op[0] == "stream" else (PLAY_CFG,)):
+            out.append((op, c))
     return out
 
 
@@ -663,14 +834,19 @@ def evaluate(case):
         from harness.core import vloop
 
         fault = tuple(case["fault"]) if case["fault"] else None
-        obs = vloop.run(run_connect, case["subset"], fault, case.get("delays"))
+        obs = vloop.run(run_connect, case["subset"], fault, case.get("delays"), case.get("closes"))
         mfault = (4 * fault[0] + fault[1], fault[2]) if fault else None
         return obs, [f"run connect:{csv([str(i) for i in case['subset']])} - {fault_str(mfault)}"]
     if fam == "single":
         op, vol = tuple(case["op"]), case["vol"]
         fault = tuple(case["fault"]) if case["fault"] else None
         obs = run_async(scenario_single(op, vol, fault[0] if fault else None, fault[1] if fault else "fail",
-                                        tuple(case["foreign"])))
+                                        tuple(case["foreign"]), case.get("raop_props")))
+        if case.get("raop_props") is not None:
+            # the model counterpart of "the helper raises on this TXT record": a failure at the
+            # synchronous point of that helper
+            k = obs["names"].index("sync:get_protocol_version") if "sync:get_protocol_version" in obs["names"] else 0
+            fault = (k, "fail")
         return obs, [f"run {op_name(op, vol)} {csv(obs['env'])} {fault_str(fault)}"]
     if fam == "overlap":
         op1, op2, vol = tuple(case["op1"]), tuple(case["op2"]), case["vol"]
@@ -712,7 +888,7 @@ async def scenario_seq(vol_known, steps):
             plan = Plan(fault[0], fault[1]) if fault else Plan()
             # which script variant applies is decided by real state: the receiver's initial
             # volume is only used while the volume has never been set on this device object
-            volflag = vol_known and not rig.raop.audio.has_changed_volume
+            volflag = [cfg(vol_known)[0] and not rig.raop.audio.has_changed_volume, cfg(vol_known)[1]]
             o = await rig.run_op(tuple(st["op"]), plan)
             out.append({"outcome": o, "env": env, "ledger": rig.world.ledger(), "points": plan.n, "volflag": volflag,
                         "untouched": all(x in rig.world.open_ids() for x in ids0),
@@ -745,8 +921,13 @@ def judge(case, obs):
     fam = case["family"]
     bad = []
     if fam == "connect":
-        if obs["outcome"] == "fail":
+        injected_cancel = bool(case["fault"]) and case["fault"][2] == "cancel"   # outside the property
+        if obs["outcome"] != "ok" and not injected_cancel:            # connect() raised
             step = CONNECT_STEPS[case["fault"][1]] if case["fault"] else "-"
+            if obs["ledger_at_return"] or obs["pending_at_return"]:
+                bad.append((f"connect:pending-at-return@{step}",
+                            f"when connect() raised ({obs['outcome']}; close scripts {case.get('closes')}) it still held "
+                            f"{obs['ledger_at_return']} and {obs['pending_at_return']} task(s) were pending"))
             if obs["ledger"]:
                 bad.append((f"connect:leak@{step}", f"connect() failed (in {step} of protocol #{case['fault'][0]} of {case['subset']}, "
                             f"delays {case.get('delays')}) but after draining the loop still holds {obs['ledger']}"))
@@ -755,8 +936,8 @@ def judge(case, obs):
         return bad
 
     def failed_call(tag, o, env, later=None, later_ledger=None):
-        if o["outcome"] in ("ok",) or o["outcome"].startswith("err:"):
-            return
+        if o["outcome"] == "ok":
+            return          # any exception out of the call is a failed operation
         if o["ledger"] != env:
             extra = list(o["ledger"])
             for x in env:
@@ -777,7 +958,13 @@ def judge(case, obs):
         failed_call(tag, obs, obs["env"])
         # also when the injected fault was swallowed by the call (it reports ok): a step of it
         # failed / was cancelled, and a later stream must still start normally
-        if (obs["outcome"] in ("fail", "cancel", "refused") or case["fault"]) and obs["later"] != "ok":
+        if case.get("raop_props") is not None:
+            # the receiver's TXT record stays unparsable: the later attempt must fail the same
+            # way (not with "already streaming")
+            if obs["later"] != obs["outcome"]:
+                bad.append((f"{tag}:later-stream:{obs['outcome']}",
+                            f"after a call failing with {obs['outcome']} a new stream_file ends with {obs['later']}"))
+        elif (obs["outcome"] != "ok" or case["fault"]) and obs["later"] != "ok":
             bad.append((f"{tag}:later-stream:{obs['outcome']}",
                         f"after a {obs['outcome']} call (fault {case['fault']}) a new stream_file ends with {obs['later']}"))
     elif fam == "overlap":
@@ -785,7 +972,7 @@ def judge(case, obs):
             return bad
         tag = f"overlap:{case['op1'][0]}/{case['op2'][0]}"
         failed_call(tag, {"outcome": obs["outcome2"], "ledger": obs["ledger2"], "untouched": obs["untouched"]}, obs["held"])
-        if obs["outcome2"] in ("fail", "cancel", "refused") and obs["later"] != "ok":
+        if obs["outcome2"] != "ok" and obs["later"] != "ok":
             bad.append((f"{tag}:later-stream", f"after the overlap a new stream_file ends with {obs['later']}"))
     elif fam == "seq":
         anyfail = False
@@ -804,6 +991,8 @@ def compare(ctx, case, obs, answers):
     def cmp_run(ans, o, where):
         m = parse_run(ans)
         impl = {"outcome": o["outcome"], "ledger": o["ledger"], "points": o["points"]}
+        if case.get("raop_props") is not None and impl["outcome"].startswith("err:"):
+            impl["outcome"] = "fail"    # the real helper raised its own exception class
         if fam == "connect" and o.get("ledger_at_return") != o["ledger"]:
             ctx.disagree(case, {"at_return": o.get("ledger_at_return"), "after_drain": o["ledger"]}, ans,
                          where="connect: ledger changed after connect() had returned")
@@ -832,7 +1021,17 @@ def compare(ctx, case, obs, answers):
 
 
 def dry_points(op, vol):
-    return run_async(scenario_single(op, vol, None, "fail"))["points"]
+    """Names of the collaborator calls of a fault-free run (`sync:` = synchronous helper)."""
+    return run_async(scenario_single(op, vol, None, "fail"))["names"]
+
+
+def faults_for(names, limit=None):
+    out = []
+    for k, name in enumerate(names[:limit] if limit else names):
+        out.append([k, "fail"])
+        if not name.startswith("sync:"):
+            out.append([k, "cancel"])
+    return out
 
 
 def gen_cases(ctx):
@@ -859,42 +1058,65 @@ def gen_cases(ctx):
                     cases.append({"family": "connect", "subset": subset, "fault": [k, step, "fail"], "delays": delays})
             if ctx.thorough or k == m - 1:
                 cases.append({"family": "connect", "subset": subset, "fault": [k, 0, "cancel"], "delays": patterns[1]})
-    # B. one streaming call, a failure and a cancellation at every collaborator call,
-    #    alone and while another protocol holds a takeover
-    npts = {}
+            # close() of the protocols already connected returns tasks that raise / finish late
+            if k >= 1:
+                modes = ["sync", "late", "raise"]
+                cpats = [["raise" if j == 0 else "late" for j in range(m)],
+                         ["late" if j == 0 else "raise" for j in range(m)],
+                         [modes[crng.randint(0, 2)] for _ in range(m)]]
+                for step in ((0, 3) if not ctx.thorough else range(len(CONNECT_STEPS))):
+                    for cp in cpats:
+                        cases.append({"family": "connect", "subset": subset, "fault": [k, step, "fail"],
+                                      "delays": [0] * m, "closes": cp})
+    # B. one streaming call, a failure and a cancellation at every collaborator call (one level
+    #    below the stream objects: RTSP requests, pair-verify, event channel, UDP endpoints),
+    #    for AirPlay 1 and AirPlay 2 receivers, alone and while another protocol holds a takeover
+    names = {}
+    key = lambda op, c: (tuple(op), tuple(c if op[0] == "stream" else PLAY_CFG))
     foreigns = [[], [3], [0], [0, 1, 2, 3]]
-    for op, vol in variants():
-        npts[(op, vol)] = N = dry_points(op, vol)
+    for op, c in variants():
+        names[key(op, c)] = nm = dry_points(op, c)
         for foreign in foreigns:
-            faults = [None] + [[k, kind] for k in range(N) for kind in ("fail", "cancel")]
-            if foreign and not ctx.thorough:
-                faults = [None] + [[k, kind] for k in range(min(N, 2)) for kind in ("fail", "cancel")]
+            faults = [None] + faults_for(nm, 2 if (foreign and not ctx.thorough) else None)
             for f in faults:
-                cases.append({"family": "single", "op": list(op), "vol": vol, "fault": f, "foreign": foreign})
+                cases.append({"family": "single", "op": list(op), "vol": c, "fault": f, "foreign": foreign})
+    #    receivers whose TXT record makes helper parsing raise between two collaborator calls
+    for props in ({"ft": "0X4A7FCA00,0xBC354BD0"}, {"features": "zz"}, {"ft": ""}):
+        for op in (("stream", True), ("stream", False)):
+            cases.append({"family": "single", "op": list(op), "vol": [True, False], "fault": None, "foreign": [],
+                          "raop_props": props})
     # C. every overlap of two calls: the first parked at every point, then a second call
-    for op1, vol in variants():
-        for park in range(npts[(op1, vol)] + 1):       # +1: a point the call never reaches
+    over_cfgs = STREAM_CFGS if ctx.thorough else [[True, False], [True, True], [False, True]]
+    for op1, c in variants(over_cfgs):
+        if not ctx.thorough and op1[0] == "stream" and not op1[1] and c != [True, True]:
+            continue
+        nm1 = names[key(op1, c)]
+        for park in range(len(nm1) + 1):       # +1: a point the call never reaches
+            if park < len(nm1) and nm1[park].startswith("sync:"):
+                continue                       # a call cannot be suspended in a synchronous helper
             for op2 in OPS:
-                N2 = npts[(op2, vol if op2[0] == "stream" else True)]
-                lim = N2 if ctx.thorough else min(N2, 2)
-                faults = [None] + [[k, kind] for k in range(lim) for kind in ("fail", "cancel")]
+                nm2 = names[key(op2, c)]
+                faults = [None] + faults_for(nm2, None if ctx.thorough else 2)
                 for f2 in faults:
-                    cases.append({"family": "overlap", "op1": list(op1), "op2": list(op2), "vol": vol,
+                    cases.append({"family": "overlap", "op1": list(op1), "op2": list(op2), "vol": c,
                                   "park": park, "fault2": f2})
     # D. PRNG-chosen sequences of calls on one device object
     rng = ctx.rng.fork("seq")
     for _ in range(ctx.scale(60, 600)):
-        vol = rng.random() < 0.5
+        c = [rng.random() < 0.5, rng.random() < 0.5]
         steps = []
         for _i in range(rng.randint(2, 5)):
             op = OPS[rng.randint(0, len(OPS) - 1)]
-            N = npts[(op, vol if op[0] == "stream" else True)]
+            nm = names[key(op, c)]
             r = rng.random()
-            fault = None if r < 0.2 else [rng.randint(0, N - 1), "fail" if rng.random() < 0.5 else "cancel"]
+            fault = None
+            if r >= 0.2:
+                k = rng.randint(0, len(nm) - 1)
+                fault = [k, "fail" if (rng.random() < 0.5 or nm[k].startswith("sync:")) else "cancel"]
             fr = rng.random()
             foreign = None if fr < 0.5 else ([] if fr < 0.7 else sorted(set(rng.randint(0, 3) for _ in range(rng.randint(1, 3)))))
             steps.append({"op": list(op), "fault": fault, "foreign": foreign})
-        cases.append({"family": "seq", "vol": vol, "steps": steps})
+        cases.append({"family": "seq", "vol": c, "steps": steps})
     return cases
 
 
